@@ -73,3 +73,19 @@ target("breezy/bzr/vf_search.py::limited_search_result_from_parent_map",
 
 undecided("that a breadth-first walk from `start` stopping at `stop` visits exactly the keys of the map (graph induction over the external searcher)")
 undecided("serialisation of the recipe (join/split on spaces and newlines; revision ids contain neither: assumed); _find_possible_heads and _run_search (external searcher)")
+
+# ---- the client side: a search recipe is sent as exactly  <start keys, space separated> LF <stop keys, space separated> LF <count>
+JoinSP = ufunc("JoinSP", Seq(BYTES), BYTES)        # b" ".join
+JoinNL3 = ufunc("JoinNL3", BYTES, BYTES, BYTES, BYTES)   # b"\n".join of three parts
+StrI = ufunc("StrI", INT, STR)
+EncAscii = ufunc("EncAscii", STR, BYTES)
+assumed("b' '.join", pure=True, no_raise=True, returns=lambda c: JoinSP(c.args[0]))
+assumed("b'\\n'.join", pure=True, no_raise=True, returns=lambda c: JoinNL3(c.args[0][0], c.args[0][1], c.args[0][2]))
+assumed("str", pure=True, no_raise=True, returns=lambda c: StrI(c.args[0]))
+assumed(rx(r"^str\(recipe\[3\]\)\.encode$"), pure=True, no_raise=True, returns=lambda c: EncAscii(StrI(c.recipe[3])))
+target("breezy/bzr/remote.py::RemoteRepository._serialise_search_recipe", params=dict(recipe=Tup(STR, Seq(BYTES), Seq(BYTES), INT)),
+       result=BYTES, modifies=[],
+       ensures={"start_keys_then_stop_keys_then_count": lambda c: c.result == JoinNL3(JoinSP(c.old.recipe[1]), JoinSP(c.old.recipe[2]),
+                                                                                     EncAscii(StrI(c.old.recipe[3])))},
+       raises={}, canary=lambda c: Len(c.result) == 0,
+       note="the wire form the server's recreate_search_from_recipe parses")
